@@ -105,7 +105,10 @@ pub fn lock_apply(st: &mut LSt, op: &Op) -> Outcome {
                 }
                 // a terminal configured to keep no scrollback: the rows this call scrolled off
                 // the primary screen are handed to the caller, unchanged and in order
-                if let (true, Some(h)) = (st.model.no_scrollback, handed.as_ref()) {
+                // (not judged for the commands that switch screens: leaving the alternate screen
+                // re-flows the parked primary after a resize, and what that pushes off is adopted)
+                let switches = matches!(part, DecSet(_) | DecRst(_) | Ris | Decstr);
+                if let (true, false, Some(h)) = (st.model.no_scrollback, switches, handed.as_ref()) {
                     let want = &st.model.handed_out;
                     let same = h.len() == want.len() && h.iter().zip(want.iter()).all(|(a, b)| a.cells == b.cells);
                     if !same {
